@@ -381,8 +381,10 @@ def parcor(fir_filt):
   den = fir_filt.denominator
   if len(den) != 1:
     raise ValueError("Filter has feedback")
-  elif den[0] != 1: # So we don't have to worry with the denominator anymore
-    fir_filt /= den[0]
+  fir_filt = ZFilter(fir_filt.numpoly) # The constant denominator is a gain
+  gain = fir_filt.numpoly[0]
+  if gain != 1: # A gain doesn't change the coefficients, but k needs a 1 here
+    fir_filt /= gain
 
   for m in xrange(len(fir_filt.numerator) - 1, 0, -1):
     k = fir_filt.numpoly[m]
